@@ -646,37 +646,66 @@ def rule_registry(ctx, rid):
 def rule_yaml_safe(ctx, rid):
     """Conversion table of the YAML-safe export: ndarray -> .tolist() (plain python scalars all the way down),
     tuple -> list, dict -> recursive conversion, anything else unchanged.  list(ndarray) keeps numpy scalars, which
-    yaml.dump writes as python-object tags that FullLoader refuses to read back."""
+    yaml.dump writes as python-object tags that FullLoader refuses to read back.  The table is read from the
+    evaluated paths, so a loop with if/elif and a dict comprehension with conditional expressions look the same."""
     P = ctx.P
     fi = P.func('emd.sift._array_or_tuple_to_list')
-    table = {}
-    for n in walk_local(fi.node):
-        if isinstance(n, ast.If):
-            t = n.test
-            if isinstance(t, ast.Call) and isinstance(t.func, ast.Name) and t.func.id == 'isinstance' and len(t.args) == 2:
-                types = t.args[1].elts if isinstance(t.args[1], ast.Tuple) else [t.args[1]]
-                conv = None
-                for st in n.body:
-                    if isinstance(st, ast.Assign):
-                        conv = st.value
-                for ty in types:
-                    d = P.resolve(fi.module, ty, fi) or unparse(ty)
-                    table[d] = conv
-    want = {'numpy.ndarray': lambda v: isinstance(v, ast.Call) and isinstance(v.func, ast.Attribute) and v.func.attr == 'tolist',
-            'builtins.tuple': lambda v: isinstance(v, ast.Call) and unparse(v.func) in ('list',) or (
-                isinstance(v, ast.Call) and isinstance(v.func, ast.Attribute) and v.func.attr == 'tolist'),
-            'builtins.dict': lambda v: isinstance(v, ast.Call) and unparse(v.func) == fi.name}
-    names = {'numpy.ndarray': 'arrays are converted with .tolist()', 'builtins.tuple': 'tuples become lists',
-             'builtins.dict': 'nested dicts are converted recursively'}
-    for ty, ok in want.items():
-        c = 'YAML-safe export: ' + names[ty]
-        conv = table.get(ty)
-        if conv is None:
+    exits = [e for e in Evaluator(P).run(fi) if e.kind == 'return']
+    ctx.paths += len(exits)
+    cases = []          # ([(type name, truth)], value term, element term)
+
+    def types_of(c):
+        if c[0] == 'call' and c[1] == 'builtins.isinstance' and len(c[2]) == 2:
+            ty = c[2][1]
+            tys = ty[1] if ty[0] == 'tuple' else (ty,)
+            return c[2][0], [t[1] for t in tys if t[0] == 'ref']
+        return None, []
+    for e in exits:
+        for ls in e.state.loops:
+            if ls.kind != 'for':
+                continue
+            for kind, b in ls.body_states:
+                tests = []
+                for c, truth, ln in b.conds:
+                    el, tys = types_of(c)
+                    if tys:
+                        tests.append((tuple(tys), truth, el))
+                for eff in b.effects:
+                    if eff[0] == 'setitem':
+                        cases.append((tests, eff[3]))
+        v = e.value
+        if v[0] == 'comp' and v[1] == 'dict':
+            val = v[2][1][1]
+
+            def walk(t, tests):
+                if t[0] == 'ifexp':
+                    el, tys = types_of(t[1])
+                    if tys:
+                        walk(t[2], tests + [(tuple(tys), True, el)])
+                        walk(t[3], tests + [(tuple(tys), False, el)])
+                        return
+                cases.append((tests, t))
+            walk(val, [])
+    want = {'numpy.ndarray': ('arrays are converted with .tolist()',
+                              lambda el, v: v == ('meth', 'tolist', el, (), ())),
+            'builtins.tuple': ('tuples become lists',
+                               lambda el, v: v in (('call', 'builtins.list', (el,), ()), ('meth', 'tolist', el, (), ()))),
+            'builtins.dict': ('nested dicts are converted recursively',
+                              lambda el, v: v[0] == 'call' and v[1] == fi.qualname and el in set(subterms(v)))}
+    for ty, (text, ok) in want.items():
+        c = 'YAML-safe export: ' + text
+        hit = None
+        for tests, val in cases:
+            pos = [t for t in tests if t[1] and ty in t[0]]
+            neg_before = all((not t[1]) or ty in t[0] for t in tests)
+            if pos and neg_before:
+                hit = (pos[0][2], val)
+        if hit is None:
             ctx.violation(rid, fi, c, 'no conversion for %s: such option values cannot be written / read back' % ty)
-        elif ok(conv):
-            ctx.passed(rid, fi, c, unparse(conv))
+        elif ok(hit[0], hit[1]):
+            ctx.passed(rid, fi, c, show(hit[1])[:60])
         else:
             ctx.violation(rid, fi, c, '%s values are converted by `%s`%s' % (
-                ty, unparse(conv), ': numpy scalars survive and the YAML cannot be loaded again'
+                ty, show(hit[1])[:60], ': numpy scalars survive and the YAML cannot be loaded again'
                 if ty == 'numpy.ndarray' else ''), expected='val.tolist()' if ty == 'numpy.ndarray' else None,
-                found=unparse(conv))
+                found=show(hit[1])[:80])
